@@ -45,6 +45,10 @@ pub fn run(ctx: &mut Ctx) {
         vec![TOp::NewRequest(1), TOp::DeliverReq(Delivery::LatestWithStatus(0)), TOp::Prepare(vec![0], false), TOp::NextPayload, TOp::Submit(true), TOp::Ready, TOp::Retrieve],
         vec![TOp::NewRequest(2), TOp::DeliverReq(Delivery::LatestWithStatus(1)), TOp::Prepare(vec![0, 1], false), TOp::NextPayload, TOp::Submit(true), TOp::NextPayload, TOp::Submit(true), TOp::Retrieve],
         vec![TOp::NewRequest(0), TOp::DeliverReq(Delivery::LatestWithStatus(2)), TOp::Prepare(vec![], false), TOp::Ready, TOp::Retrieve],
+        // an authentic but undecodable request that ALSO carries a status member still gets its status 11 / 12 response
+        vec![TOp::NewRequest(0), TOp::DeliverReq(Delivery::WithStatus(Box::new(Delivery::CraftedNotCbor), 0)), TOp::Ready, TOp::Retrieve],
+        vec![TOp::NewRequest(0), TOp::DeliverReq(Delivery::WithStatus(Box::new(Delivery::CraftedNotStruct), 2)), TOp::NextPayload, TOp::Ready, TOp::Retrieve, TOp::Retrieve],
+        vec![TOp::DeliverReq(Delivery::WithStatus(Box::new(Delivery::CraftedBytesKeyed), 1)), TOp::Ready, TOp::Retrieve],
         // status-only frames of every kind while a response is pending / ready: nothing is lost
         vec![TOp::Prepare(vec![0, 1], false), TOp::DeliverReq(Delivery::NoData(0)), TOp::NextPayload, TOp::Submit(true), TOp::DeliverReq(Delivery::NoData(1)), TOp::NextPayload, TOp::Submit(true), TOp::DeliverReq(Delivery::NoData(4)), TOp::Ready, TOp::Retrieve],
     ];
